@@ -197,3 +197,5 @@ def run(cx, out):
         check_ambient(out, facts, S)
         check_wrappers(out, facts)
         c01.check_shapes(out, facts)
+    from . import positive
+    positive.check(cx, out, 'C06')
